@@ -28,6 +28,7 @@ type isoRec struct {
 	since int64
 	tn    int // TimeoutNow requests delivered to it while isolated
 	ahead bool
+	muted bool // it still hears the others (and may adopt their term)
 }
 
 type rejoinRec struct {
@@ -74,8 +75,8 @@ func (r *Runner) execMacro(a Action) {
 			return
 		}
 		keep := a.N
-		if keep > quorum-2 {
-			keep = quorum - 2
+		if keep > quorum-1-leaderVotes {
+			keep = quorum - 1 - leaderVotes // one voter short of a majority, the leader's own vote (if it has one) included
 		}
 		if keep < 0 {
 			keep = 0
@@ -108,12 +109,82 @@ func (r *Runner) execMacro(a Action) {
 		if a.Arg == 1 && len(nonvoters) > 0 {
 			r.feat("cutleader-keeps-nonvoters")
 		}
+	case "demotecut":
+		// the leader keeps just the majority it needs, then demotes itself: the
+		// new configuration (in force at once, not committable) has one voter
+		// fewer on the leader's side than its majority - and the leader itself
+		// no longer has a vote to count
+		li, L := r.leader()
+		if L == nil {
+			return
+		}
+		cfg := r.cfgOf(L)
+		var voters, nonvoters []string
+		leaderVotes := false
+		for _, s := range cfg.Servers {
+			switch {
+			case string(s.ID) == r.ids[li]:
+				leaderVotes = s.Suffrage == raft.Voter
+			case s.Suffrage == raft.Voter:
+				voters = append(voters, string(s.ID))
+			default:
+				nonvoters = append(nonvoters, string(s.ID))
+			}
+		}
+		oldQ, newQ := (len(voters)+1)/2+1, len(voters)/2+1
+		keep := oldQ - 1
+		if !leaderVotes || len(voters) == 0 || keep > newQ-1 {
+			r.execMacro(Action{Op: "cutleader", N: a.N, Arg: a.Arg})
+			return
+		}
+		side := map[string]bool{r.ids[li]: true}
+		for i := 0; i < keep; i++ {
+			side[voters[i]] = true
+		}
+		if a.Arg == 1 {
+			for _, n := range nonvoters {
+				side[n] = true
+			}
+		}
+		w.Mu.Lock()
+		for _, x := range r.ids {
+			for _, y := range r.ids {
+				if side[x] != side[y] {
+					r.cut[[2]string{x, y}] = true
+				}
+			}
+		}
+		r.lastFaultMs = w.Now()
+		w.EvLocked(sim.Event{Kind: "demotecut", Srv: L.ID(), S: fmt.Sprint(keys(side))})
+		w.Mu.Unlock()
+		r.doMembership(L, "demote", li, 0)
+		w.Advance(2*time.Millisecond, r.sample)
+		demoted := false
+		for _, s := range r.cfgOf(L).Servers {
+			if string(s.ID) == r.ids[li] && s.Suffrage != raft.Voter {
+				demoted = true
+			}
+		}
+		if demoted && L.R.State() == raft.Leader {
+			w.Mu.Lock()
+			r.leaseCuts = append(r.leaseCuts, &leaseCut{in: L, t0: w.Now(), lease: L.Conf.LeaderLeaseTimeout, term: L.R.CurrentTerm()})
+			w.Mu.Unlock()
+			r.feat("cutleader")
+			r.feat("cutleader-keeps-a-peer")
+			r.feat("leader-demoted-itself-below-its-majority")
+			if a.Arg == 1 && len(nonvoters) > 0 {
+				r.feat("cutleader-keeps-nonvoters")
+			}
+		}
 	case "isolatemin":
 		// isolate a minority of servers from everybody else (they stay
 		// connected to each other)
 		iso := map[string]bool{}
 		for _, i := range a.Set {
 			iso[r.ids[i%len(r.ids)]] = true
+		}
+		if li, _ := r.leader(); a.Arg == 1 && (li < 0 || iso[r.ids[li]]) {
+			a.Arg = 0 // muting needs a leader outside the group to hand leadership over
 		}
 		// is it a minority of the voters? (otherwise it is just a partition)
 		minority := false
@@ -136,7 +207,12 @@ func (r *Runner) execMacro(a Action) {
 		w.Mu.Lock()
 		for _, x := range r.ids {
 			for _, y := range r.ids {
-				if iso[x] != iso[y] {
+				if a.Arg == 1 {
+					// muted: what the isolated servers send is lost, they still hear the others
+					if iso[x] && !iso[y] {
+						r.cut[[2]string{x, y}] = true
+					}
+				} else if iso[x] != iso[y] {
 					r.cut[[2]string{x, y}] = true
 				}
 			}
@@ -164,11 +240,24 @@ func (r *Runner) execMacro(a Action) {
 		for id := range iso {
 			if in := r.liveByID(id); in != nil && minority {
 				r.W.Mu.Lock()
-				r.isolated[id] = &isoRec{in: in, term: groupTerm, since: w.Now()}
+				r.isolated[id] = &isoRec{in: in, term: groupTerm, since: w.Now(), muted: a.Arg == 1}
 				r.W.Mu.Unlock()
 			}
 		}
 		r.feat("isolate-minority")
+		if a.Arg == 1 {
+			// the leader hands leadership to a muted server: it receives
+			// TimeoutNow, campaigns once without pre-vote and cannot win
+			if li, L := r.leader(); L != nil && !iso[r.ids[li]] {
+				for i := range r.ids {
+					if iso[r.ids[i]] && r.live(i) != nil {
+						r.doTransfer(L, i)
+						r.feat("isolated-candidate-after-timeoutnow")
+						break
+					}
+				}
+			}
+		}
 	case "rejoin":
 		// heal and remember what the majority looked like
 		// the majority side's leader
@@ -441,7 +530,27 @@ func (r *Runner) sampleProfile() {
 		if ir.in.Dead() || ir.in.Conf.PreVoteDisabled {
 			continue
 		}
-		if t := ir.in.R.CurrentTerm(); t > ir.term+uint64(w.O.TimeoutNowsTo(ir.in.ID(), ir.since)) {
+		base := ir.term
+		if ir.muted {
+			// it hears the others: adopting the term of an election held among them is legitimate
+			for _, id := range r.ids {
+				if o := r.liveByID(id); o != nil && o != ir.in {
+					w.Mu.Lock()
+					_, alsoIso := r.isolated[id]
+					w.Mu.Unlock()
+					if ot := o.R.CurrentTerm(); !alsoIso && ot > base {
+						base = ot
+					}
+				}
+			}
+		}
+		// a TimeoutNow makes its receiver campaign once without pre-vote; the
+		// co-isolated servers adopt that term from its vote requests
+		tns := 0
+		for _, o := range isos {
+			tns += w.O.TimeoutNowsTo(o.in.ID(), o.since)
+		}
+		if t := ir.in.R.CurrentTerm(); t > base+uint64(tns) {
 			w.Violate("C14", "R1", "C14/R1/isolated-server-raised-its-term", "%s (pre-vote enabled) isolated since %d ms with term %d has term %d at %d ms", ir.in.ID(), ir.since, ir.term, t, now)
 			ir.term = t
 		}
